@@ -1,5 +1,5 @@
 PROP = dict(
-    coq=["Queue/QueueHarness.vo", "Stage/OutlinksHarness.vo"],
+    coq=["Queue/QueueHarness.vo", "Stage/OutlinksHarness.vo", "Pipe/CrashHarness.vo"],
     legs=[
         dict(driver="hqpath", binary="zqueue", quick=400, thorough=6000, shard=100,
              monitors=["hops_roundtrip (pathToHops(hopsToPath h) = h)", "path_is_L_only_and_count_is_number_of_L"]),
@@ -16,6 +16,11 @@ PROP = dict(
         # postprocessor gives an outlink (real postprocessItem on synthetic pages; driver of C06; its monitors 0 and 3)
         dict(driver="hops", corpus_from="C06", quick=600, thorough=20000, shard=600, only_monitors=[0, 3],
              monitors=["outlink_hop_rule", "(C06)", "(C06)", "outlink_via_is_parent_page"]),
+        # "...finish acks reach the queue" END TO END: whole real crawls on the local queue (driver of C04; its monitor 0): after the
+        # restart every row of the queue is crawled, acknowledged and deleted - seeds that need several passes (assets, redirects:
+        # reactor.ReceiveFeedback rewrites their source) and one-pass seeds alike.  The other monitors belong to C04.
+        dict(driver="crash", corpus_from="C15", quick=6, thorough=60, shard=6, noshrink=True, only_monitors=[0],
+             monitors=["every_queue_row_acknowledged_and_deleted_end_to_end (multi-pass seeds included)", "(C04)", "(C04)", "(C04)", "(C04)", "(C04)"]),
     ],
     search_mult=3,
     partial="Shutdown is outside this property (after Stop the machine does not move and what is in flight stays undelivered: "
